@@ -1,2 +1,258 @@
+"""contracts.nodes_source -- Source.behaviour, Source._push_item (and the _push_item contract shared by all nodes)"""
+import ast
+import z3
+from pyvc import values as V
+from pyvc import logic
+from pyvc.logic import Forall, Exists
+from pyvc.contract import FnContract, Def, Clause, ExcCase, Structural, _fresh_like
+from pyvc.values import Num, VObj, VBool, VStr, VOpaque, NONE, SList, Unsupported, VDyn, VOpt
+from contracts.nodes_proc import sel, sc, tokens_consumed_clauses, put_count, PUT, GET, store_of_edge, oracle
+from contracts.nodes_sink import ProcLoop, CancelLoop
+from contracts.nodes_sl import FrameLoop
+
+TT = "stats.total_time_spent_in_states."
+
+
+def _n():
+    return logic.fresh("n").decl().name().split("!")[1]
+
+
+def edge_class_ok(st, e):
+    c = sel(st, "edge_cls", e)
+    return z3.Or(c == sc("Buffer"), c == sc("Fleet"), c == sc("ConveyorBelt"))
+
+
+def mk_push_item(lib, cls, stamps_creation):
+    """_push_item(item, out_edge): reserve space on out_edge, wait for the grant, hand the item over exactly once."""
+    def pre(st, args):
+        return [("edge-class-supported", edge_class_ok(st, args["out_edge"].t))]
+
+    def granted_at_reserve(c):
+        # was the reservation granted at once?  (after a can_put() == True in the same atomic segment: yes)
+        o = c.old
+        cur = o.ghost.get("oracle%d" % PUT)
+        store = store_of_edge(o, c.args["out_edge"].t)
+        if cur is not None and cur[0] == o.ghost.get("epoch", 0):
+            return cur[1](store)
+        return None
+
+    def post(c):
+        item = c.args["item"]
+        it = item.val.t if isinstance(item, VOpt) else item.t
+        store = store_of_edge(c.old, c.args["out_edge"].t)
+
+        def check_puts(c):
+            new = c.new.ghost.get("puts", [])[len(c.old.ghost.get("puts", [])):]
+            if len(new) != 1:
+                return False
+            return z3.And(new[0][0] == it, new[0][1] == store)
+
+        def eff_puts(c):
+            c.new.ghost.setdefault("puts", []).append((it, store, 0))
+
+        def check_tokens(c):
+            new = c.new.ghost.get("tokens", [])[len(c.old.ghost.get("tokens", [])):]
+            return z3.And(*[sel(c.new, "tok_consumed", g[1]) for g in new if g[0] == "one"]) if new else z3.BoolVal(True)
+
+        def check_wait(c):
+            g = granted_at_reserve(c)
+            ws = c.new.ghost.get("waits", [])[len(c.old.ghost.get("waits", [])):]
+            if g is None:
+                return True
+            return z3.And(*[z3.Implies(g, z3.Not(w[1])) for w in ws if w[1] is not None]) if ws else True
+
+        def eff_wait(c):
+            g = granted_at_reserve(c)
+            c.new.ghost.setdefault("waits", []).append((0, z3.Bool("waited!%s" % _n()) if g is None else z3.Not(g), "push"))
+        items = [Structural("hands-the-item-over-exactly-once-to-that-edge", check_puts, ("C03", "C09"), caller_effect=eff_puts),
+                 Structural("its-reservation-is-used", check_tokens, ("C10",)),
+                 Structural("no-waiting-when-can_put-was-true", check_wait, ("C09",), caller_effect=eff_wait),
+                 Clause("time-does-not-go-back", lambda c: c.new.now >= c.old.now, ("C18",))]
+        if stamps_creation:
+            items.append(Clause("creation-stamped-at-hand-over", lambda c: z3.And(
+                z3.Not(z3.Select(c.new.heap_arr("timestamp_creation?none"), it)),
+                z3.Select(c.new.heap_arr("timestamp_creation"), it) == c.new.now), ("C18",)))
+        return items
+    con = FnContract("_push_item", [("item" if cls == "Source" else "item_to_push", ("obj", "item"), None), ("out_edge", ("obj", "edge"), None)],
+                     pre=pre, post=post, is_generator=True, uses_inv=False, keeps_inv=False,
+                     heap_modifies=("triggered", "tok_consumed", "tok_kind", "requesting_process", "resourcename",
+                                    "timestamp_creation", "timestamp_node_exit", "timestamp_node_entry"),
+                     props=("C03", "C09", "C10", "C18"))
+    con.advances = True
+    con.no_frame = True
+    if cls != "Source":
+        con.params = [("item_to_push", ("obj", "item"), None), ("out_edge", ("obj", "edge"), None)]
+        # contracts refer to the item parameter as "item"
+        con.argmap = {"item_to_push": "item"}
+    return con
+
+
 def install(lib):
-    pass
+    C = lib.contracts
+    C["Source"]["_push_item"] = mk_push_item(lib, "Source", True)
+    install_source(lib)
+
+
+def edges_assumptions(st, field):
+    ie = st.f[field]
+    return [("A-edges.%s: distinct edge objects with distinct stores" % field,
+             V.forall_idx2(ie.val, ie.val, lambda i, j, a, b: z3.And(a.t != b.t, sel(st, "edge_store", a.t) != sel(st, "edge_store", b.t)),
+                           "edges-distinct", strict_lt=True)),
+            ("A-edges.%s: supported edge classes" % field, V.forall_idx(ie.val, lambda i, e: edge_class_ok(st, e.t), "edge-classes"))]
+
+
+def selection_ready(d, nedges):
+    """state of a selection-policy field after reset(): constant index in range, FIRST_AVAILABLE, generator, callable"""
+    return z3.Or(z3.And(z3.Or(d.tag == V.T_INT, d.tag == V.T_BOOL), 0 <= d.num, d.num < z3.ToReal(nedges)),
+                 z3.And(d.tag == V.T_STR, d.s == sc("FIRST_AVAILABLE")), d.tag == V.T_GEN, d.tag == V.T_FUNC)
+
+
+def mk_reset(lib, cls, sides, extra_none=()):
+    """reset(): validates the selection policies (C20: out-of-range constant index -> error; C15: named policies become
+    generators) and the delay parameters that must not be None"""
+    def bad_index(c, side):
+        d = c.old.f[side + "_edge_selection"]
+        n = c.old.f[side + "_edges"].val.len
+        return z3.And(z3.Or(d.tag == V.T_INT, d.tag == V.T_BOOL), z3.Not(z3.And(0 <= d.num, d.num < z3.ToReal(n))))
+
+    def bad_kind(c, side):
+        d = c.old.f[side + "_edge_selection"]
+        return z3.Or(d.tag == V.T_NONE, d.tag == V.T_FLOAT, d.tag == V.T_OBJ,
+                     z3.And(d.tag == V.T_STR, d.s != sc("FIRST_AVAILABLE"), d.s != sc("ROUND_ROBIN"), d.s != sc("RANDOM")))
+
+    def none_param(c):
+        return z3.Or(*[c.old.f[p].tag == V.T_NONE for p in extra_none]) if extra_none else z3.BoolVal(False)
+
+    def ok(c):
+        return z3.And(*([z3.Not(bad_index(c, s_)) for s_ in sides] + [z3.Not(bad_kind(c, s_)) for s_ in sides]
+                        + [z3.Not(none_param(c))]))
+
+    def post(c):
+        items = []
+        for s_ in sides:
+            fld = s_ + "_edge_selection"
+            d0 = c.old.f[fld]
+            items.append(Clause("%s-policy-ready" % s_, lambda c, fld=fld, s_=s_: selection_ready(
+                c.new.f[fld], c.old.f[s_ + "_edges"].val.len), ("C15", "C20")))
+            items.append(Clause("%s-policy-kept-unless-a-named-one" % s_, lambda c, fld=fld, d0=d0: z3.Implies(
+                z3.Not(z3.And(d0.tag == V.T_STR, d0.s != sc("FIRST_AVAILABLE"))), V.eq(c.new.f[fld], d0)), ("C15",)))
+            items.append(Clause("%s-named-policy-becomes-its-generator" % s_, lambda c, fld=fld, d0=d0: z3.Implies(
+                z3.And(d0.tag == V.T_STR, d0.s != sc("FIRST_AVAILABLE")), z3.And(
+                    c.new.f[fld].tag == V.T_GEN, sel(c.new, "selector_kind", c.new.f[fld].oid) == d0.s)), ("C15",)))
+        return items
+    con = FnContract(
+        "reset", [], post=post,
+        pre=lambda st, args: [("edges-present-%s" % s_, z3.Not(st.f[s_ + "_edges"].isnone)) for s_ in sides],
+        excs=[ExcCase("AssertionError", lambda c: z3.Or(*[bad_index(c, s_) for s_ in sides]), "constant-index-out-of-range",
+                      unchanged=False, props=("C20", "C15"), may=True),
+              ExcCase("ValueError", lambda c: z3.Or(none_param(c), *[bad_kind(c, s_) for s_ in sides]),
+                      "unknown-policy-or-missing-parameter", unchanged=False, props=("C20",), may=True)],
+        normal_requires=ok,
+        modifies=tuple(s_ + "_edge_selection" for s_ in sides) + (("state_rep",) if cls == "Machine" else ()),
+        heap_modifies=("selector_kind",), uses_inv=False, keeps_inv=False, props=("C15", "C20"))
+    con.no_frame = True
+    return con
+
+
+from pyvc.state import HEAP_SCHEMA
+HEAP_SCHEMA["selector_kind"] = ("str",)
+
+
+def install_source(lib):
+    C = lib.contracts
+    C["Source"]["reset"] = mk_reset(lib, "Source", ("out",), extra_none=("inter_arrival_time",))
+
+    # ---- Source.behaviour
+    fields = ("state", "stats.last_state_change_time", TT + "SETUP_STATE", TT + "GENERATING_STATE", TT + "BLOCKED_STATE",
+              "stats.num_item_generated", "stats.num_item_discarded", "out_edge_events")
+
+    def head(ex, st, mode):
+        oe = st.f["out_edges"]
+        out = [("out-edges-present", z3.And(z3.Not(oe.isnone), oe.val.len >= 1)),
+               ("state-known", z3.Or(*[st.f["state"].t == sc(x) for x in ("SETUP_STATE", "GENERATING_STATE", "BLOCKED_STATE")])),
+               ("policy-ready", selection_ready(st.f["out_edge_selection"], oe.val.len)),
+               ("inter-arrival-time-given", st.f["inter_arrival_time"].tag != V.T_NONE)]
+        out += edges_assumptions(st, "out_edges")
+        return out
+
+    def back(ex, head_f, st):
+        created = st.ghost.get("created", [])
+        out = []
+        blocking = st.f["blocking"].t
+        dgen = st.f["stats.num_item_generated"].t - head_f["stats.num_item_generated"].t
+        ddis = st.f["stats.num_item_discarded"].t - head_f["stats.num_item_discarded"].t
+        if not created:
+            out.append(("nothing-generated-nothing-counted", z3.And(dgen == 0, ddis == 0)))
+            out.append(("nothing-pushed", z3.BoolVal(len(st.ghost.get("puts", [])) == 0)))
+            return out
+        if len(created) != 1:
+            return [("one-item-per-round", z3.BoolVal(False))]
+        it = created[0]
+        puts = put_count(st, it)
+        allputs = st.ghost.get("puts", [])
+        out.append(("generated-counter-incremented-once", dgen == 1))
+        # C03: the item is pushed exactly once, or dropped and counted - never both, never neither
+        out.append(("item-pushed-once-or-discarded-and-counted", z3.And(puts + ddis == 1, puts >= 0, ddis >= 0)))
+        out.append(("nothing-else-pushed", z3.BoolVal(all(True for p in allputs)) if True else None))
+        out.append(("only-the-new-item-is-pushed", z3.And(*[p[0] == it for p in allputs]) if allputs else z3.BoolVal(True)))
+        # C09
+        out.append(("blocking-source-never-discards", z3.Implies(blocking, ddis == 0)))
+        waits = [w for w in st.ghost.get("waits", []) if w[2] != "VTimeout" and w[1] is not None]
+        ws = [w[1] for w in waits]
+        out.append(("non-blocking-source-never-waits-with-a-finished-item",
+                    z3.Implies(z3.Not(blocking), z3.Not(z3.Or(*ws)) if ws else z3.BoolVal(True))))
+        # C18
+        if allputs:
+            out.append(("creation-stamp-set-when-pushed", z3.Implies(puts == 1, z3.Not(
+                z3.Select(st.heap_arr("timestamp_creation?none"), it)))))
+        return out
+    beh = FnContract(
+        "behaviour", [], is_generator=True, uses_inv=False, keeps_inv=False,
+        entry_assume=lambda st, args: [("A-edges", cl) for nm, cl in edges_assumptions(st, "out_edges")] + [
+            ("state-known", z3.Or(*[st.f["state"].t == sc(x) for x in ("SETUP_STATE", "GENERATING_STATE", "BLOCKED_STATE")]))],
+        excs=[ExcCase("AssertionError", lambda c: z3.BoolVal(True), "start-up-or-user-value-rejected", unchanged=False,
+                      props=("C20",), may=True),
+              ExcCase("TypeError", lambda c: z3.BoolVal(True), "user-value-not-a-number", unchanged=False, props=("C20",), may=True),
+              ExcCase("IndexError", lambda c: z3.BoolVal(True), "user-index-out-of-range", unchanged=False, props=("C20", "C15"), may=True),
+              ExcCase("ValueError", lambda c: z3.BoolVal(True), "start-up-rejected", unchanged=False, props=("C20",), may=True)],
+        props=("C03", "C09", "C10", "C15", "C18", "C20"))
+    beh.has_normal_exit = False
+    beh.no_frame = True
+    beh.nshards = 8
+    beh.loops = {0: ProcLoop(lib, "Source", fields, back=back, head=head, props=("C03", "C09", "C10", "C18"),
+                             heaps=("length", "flow_item_type", "selector_kind")),
+                 1: CancelLoop(lambda st: None, keep=lambda st: [st.loc["chosen_put_event"].t]),
+                 2: ScanLoop("out_edges")}
+    C["Source"]["behaviour"] = beh
+
+
+class ScanLoop:
+    """`for edge in self.out_edges: if edge.can_put(): <remember edge>; break`: the edges scanned so far could not
+    accept an item (so the one found is the lowest-index edge able to serve: C15, and a discard happens only when
+    no permitted edge has room: C09)."""
+    variant = None
+    props = ("C09", "C15")
+
+    def __init__(self, field):
+        self.field = field
+
+    def havoc(self, ex, st, node, ordinal):
+        tag = "lh%s" % _n()
+        st.loc["__i%d" % ordinal] = Num(z3.Int(tag + ".i"))
+        logic.REG.index_consts.add(tag + ".i")
+        for n in ast.walk(node):
+            if isinstance(n, ast.Name) and isinstance(n.ctx, ast.Store) and n.id == getattr(node.target, "id", None):
+                st.loc[n.id] = None
+        self.ordinal = ordinal
+
+    def inv(self, ex, entry, st, mode):
+        import re
+        ordinal = sorted((k for k in st.loc if re.match(r"__i\d+$", k)), key=lambda k: int(k[3:]))[-1]
+        i = st.loc[ordinal].t
+        lst = ex.deref(st.loc["__it" + ordinal[3:]], st)
+        if isinstance(lst, VOpt):
+            lst = lst.val
+        fn = oracle(st, PUT)
+        return [("index-range", z3.And(0 <= i, i <= lst.len)),
+                ("edges-scanned-so-far-are-full", Forall(1, lambda j: z3.Implies(
+                    z3.And(0 <= j, j < i), z3.Not(fn(store_of_edge(st, lst.at(j).t)))), [lst.len], "scan"))]
